@@ -185,7 +185,11 @@ def gen_call(rng, fam=None, names=NAMES):
         ax = axes(rng, rng.randint(2, 4), names=names)
         k2 = "float" if op in ("mean", "var", "std", "logsumexp", "softmax") else ("bool" if op in ("any", "all") else kind)
         style = rng.choice(["a... [c]", "[a...] c", "a [b...]", "[a] b..."])
-        return _d(op, style, [mkdata(rng, tuple(s for _, s in ax), k2)])
+        kw = {}
+        if rng.random() < 0.4:  # the sizes of an ellipsis axis as a sequence-valued keyword
+            sizes = [s for _, s in ax]
+            kw = {"a": sizes[:-1]} if style in ("a... [c]", "[a...] c") else {"b": sizes[1:]}
+        return _d(op, style, [mkdata(rng, tuple(s for _, s in ax), k2)], kw)
     if fam == "dot3":
         ax = axes(rng, 5, sizes=(1, 2, 2, 3), names=names)
         (a, sa), (b, sb), (c, sc), (d_, sd), (e, se) = ax
